@@ -3,6 +3,7 @@
 Path-sensitive dominance rules over the six per-architecture `get_caller_frame`
 coroutines plus structural rules on frame construction.  See DESIGN.md §C05."""
 from .common import *
+import panics
 
 PID = 'C05'
 ADJUST = {'x86': 1, 'amd64': 1, 'arm': 2, 'arm64': 4, 'arm64_old': 4, 'mips': 8}
@@ -91,6 +92,8 @@ def check_frame_fn(prog, res, arch, fn):
             # --- C05.1
             ok1 = False
             for r in rels:
+                if r[0] in ('le', 'lt') and isinstance(r[1], tuple) and r[1] and r[1][0] == 'item':
+                    r = (r[0], panics.resolve_items(prog, 'minidump_unwind', r[1])) + tuple(r[2:])   # a named limit
                 if r[0] == 'le' and r[1][0] == 'int' and r[1][1] >= 4096 and is_ip_of(fn, r[2], ft):
                     ok1 = True
                 if r[0] == 'lt' and r[1][0] == 'int' and r[1][1] >= 4095 and is_ip_of(fn, r[2], ft):
